@@ -271,7 +271,8 @@ func (n *node) serve() {
 	n.nstreams = map[string]int{}
 	n.synced = map[string]int{}
 	n.ended = map[string]int{}
-	n.notifier = make(chan *core.RegionInfo)
+	// buffered like the server's changedRegions channel: several changes can be pending when RunServer wakes up
+	n.notifier = make(chan *core.RegionInfo, 16)
 	n.quit = make(chan struct{})
 	go n.gs.Serve(lis)
 	go n.sy.RunServer(n.notifier, n.quit)
@@ -488,6 +489,13 @@ func expectedNext(cur uint64, ms []*pdpb.SyncRegionResponse) uint64 {
 // disconnect stops the follower's receive loop.  StopSyncWithLeader cancels the stream at once but returns
 // only after the loop's one-second sleep, so it runs in the background; the op is complete when the leader's
 // handler of this stream has returned (nothing can reach the follower any more).
+// recordedAs: the follower's history holds, under that index, a region that reads like `want` (the follower's
+// index alone does not tell whether a message has been applied when a reset makes it land on the same value)
+func recordedAs(h *syncer.VerifHistoryBuffer, index uint64, want string) bool {
+	r := h.VerifGet(index)
+	return r != nil && fmtRegion(r) == want
+}
+
 func (f *node) disconnect() {
 	f.connected = false
 	done := make(chan struct{})
@@ -627,6 +635,7 @@ func (w *world) exec(op string) string {
 		}
 		h := l.sy.VerifHistory()
 		accepted := 0
+		lagging := ""
 		for k := 0; k < times; k++ {
 			r := parseRegion(spec)
 			res := l.bc.CheckAndPutRegion(r)
@@ -654,15 +663,39 @@ func (w *world) exec(op string) string {
 					continue
 				}
 				fh := fo.sy.VerifHistory()
-				if !waitFor(waitLimit, func() bool { return fh.GetNextIndex() == before+1 }) {
-					return fmt.Sprintf("timeout-follower-%d next=%d", i, fh.GetNextIndex())
+				want := fmtRegion(r)
+				if !waitFor(5*time.Second, func() bool { return fh.GetNextIndex() == before+1 && recordedAs(fh, before, want) }) {
+					lagging += fmt.Sprintf(" lagging-%d=%d", i, fh.GetNextIndex())
 				}
 			}
 		}
 		if f[0] == "putn" {
-			return fmt.Sprintf("ok accepted=%d next=%d", accepted, h.GetNextIndex())
+			return fmt.Sprintf("ok accepted=%d next=%d%s", accepted, h.GetNextIndex(), lagging)
 		}
-		return fmt.Sprintf("ok next=%d", h.GetNextIndex())
+		return fmt.Sprintf("ok next=%d%s", h.GetNextIndex(), lagging)
+	case f[0] == "lrestart" && len(f) == 1:
+		// the leader process restarts (same regions, as reloaded from its storage): the history index comes back
+		// from the kv, every stream is gone; the followers have to connect again
+		l := w.leader
+		if l == nil {
+			return bad
+		}
+		for _, fo := range w.followers {
+			if fo.connected {
+				fo.disconnect()
+			}
+		}
+		close(l.quit)
+		l.gs.Stop()
+		l.cancel()
+		if err := l.rs.Close(); err != nil {
+			return "close-error"
+		}
+		n := w.openNode("leader", l.dir, l.hcap)
+		n.bc = l.bc
+		n.serve()
+		w.leader = n
+		return fmt.Sprintf("ok lnext=%d", n.sy.VerifHistory().GetNextIndex())
 	case f[0] == "burst" && len(f) >= 4:
 		// changes arriving while follower i's stream is busy: its next Send is parked before it serialises, the
 		// first change is notified, then (while that Send is parked) the others; the gate opens 50 ms later
@@ -685,6 +718,7 @@ func (w *world) exec(op string) string {
 		before := h.GetNextIndex()
 		l.takeSent(fo.name)
 		var acc strings.Builder
+		lastAccepted := ""
 		var rest []*core.RegionInfo
 		first := true
 		for _, spec := range f[2:] {
@@ -695,6 +729,7 @@ func (w *world) exec(op string) string {
 				continue
 			}
 			acc.WriteByte('1')
+			lastAccepted = fmtRegion(r)
 			if first {
 				first = false
 				x.arm()
@@ -712,12 +747,20 @@ func (w *world) exec(op string) string {
 		if n == 0 {
 			return fmt.Sprintf("ok acc=%s next=%d msgs=[] fnext=%d", acc.String(), before, fh.GetNextIndex())
 		}
+		// the others queue up in the notifier channel while the first send is parked (RunServer drains them in
+		// one wake-up: one message for all of them)
+		queued := make(chan struct{})
 		go func() {
 			for _, r := range rest {
 				l.notifier <- r
 			}
+			close(queued)
 		}()
-		time.Sleep(50 * time.Millisecond)
+		select {
+		case <-queued:
+		case <-time.After(50 * time.Millisecond):
+		}
+		time.Sleep(20 * time.Millisecond)
 		close(x.release)
 		tail := ""
 		if !waitFor(waitLimit, func() bool { return h.GetNextIndex() == before+n }) {
@@ -730,7 +773,7 @@ func (w *world) exec(op string) string {
 				continue
 			}
 			oh := o.sy.VerifHistory()
-			if !waitFor(5*time.Second, func() bool { return oh.GetNextIndex() == before+n }) {
+			if !waitFor(5*time.Second, func() bool { return oh.GetNextIndex() == before+n && recordedAs(oh, before+n-1, lastAccepted) }) {
 				tail = fmt.Sprintf(" timeout-follower-%d", i)
 			}
 		}
